@@ -13,7 +13,7 @@ OUTSIDE = ["concurrent use (set/get racing with a resize; concurrent register): 
 ASSUMPTIONS = ["ids passed to set/get/test_and_set are live ids returned by parsec_info_register (info.h @remark)",
                "memset is a byte loop written in the harness (CBMC's built-in model loses writes of non-constant length)",
                "the info constructor callback is a harness function returning a distinct non-NULL default per id",
-               "known findings C41-register-hole and C41-resize-memset are excluded by class (see FINDING.md) until repaired"]
+               "findings C41-register-hole and C41-resize-memset (FINDING.md) were repaired in /repo (fix: commits 72497da, 1f4f101; known_findings.json status fixed): the queries run unrestricted; if the status is set back to known the KF_EXCLUDE/KF_ONLY plumbing of reg.c / ioa.c is used again"]
 BOUNDS = {"quick": {"registration history": "2 + 1 + 1 registrations, symbolic unregistrations/duplicates", "object array": "(NB0,NB1,MORE) in {(0,1,0),(0,2,0),(1,1,0),(2,2,1)}"},
           "thorough": {"registration history": "also 3 + 2 + 1 registrations", "object array": "8 size configurations up to 6 infos"}}
 # VP_NOKF=1: run the unrestricted queries (used to validate fix.patch on a scratch worktree)
@@ -61,6 +61,9 @@ def mutants(ctx):
         Mutant("tas_cas_args_swapped", U, "parsec_atomic_cas_ptr(&oa->info_objects[iid], old, info)", "parsec_atomic_cas_ptr(&oa->info_objects[iid], info, old)", queries=["ioa_0_1_0"]),
         Mutant("get_default_not_stored_atomically", U, "ret = parsec_info_test_and_set(oa, iid, nio, NULL);", "ret = parsec_info_set(oa, iid, nio);", queries=["ioa_0_1_0"]),
         Mutant("array_init_one_slot_short", U, "oa->known_infos = nfo->max_id+1;", "oa->known_infos = nfo->max_id;", queries=["ioa_1_1_0"]),
+        # the two repaired defects (fix: commits 72497da, 1f4f101) re-introduced: the check must report them again
+        Mutant("regression_register_hole", U, "                next_item = item;", "                next_item = PARSEC_LIST_ITERATOR_NEXT(item);", queries=["reg_history_2_1"]),
+        Mutant("regression_resize_memset", U, "memset(&oa->info_objects[oa->known_infos], 0, sizeof(void *) * (ns - oa->known_infos));", "memset(&oa->info_objects[oa->known_infos - 1], 0, ns - oa->known_infos);", queries=["ioa_1_1_0"]),
         Mutant("set_returns_new_value", U, "    ret = oa->info_objects[iid];\n    oa->info_objects[iid] = info;", "    oa->info_objects[iid] = info;\n    ret = oa->info_objects[iid];", queries=["ioa_0_2_0"]),
     ]
 
@@ -71,9 +74,9 @@ MANIFEST = {
          "(a) registration histories from the empty registry (register / unregister a symbolic subset / duplicate-name attempts / re-register) against a ghost model: "
          "ids of live infos distinct and smallest-free, lookup by name, cb_data, max_id; (b) object arrays: init, set, get (constructed default, constructor called once), "
          "test_and_set (replace iff match) and growth of the array, every slot compared with a ghost model, memory-safety checks on. "
-         "Two genuine defects were found and are recorded as known findings (duplicate id after a hole was refilled; resize clears the wrong bytes); "
-         "the check excludes exactly those two classes and still fails on anything else.",
+         "Two genuine defects were found by these queries (duplicate id after a hole was refilled; resize clears the wrong bytes), repaired by fix: commits in /repo; "
+         "two of the seeded mutants re-introduce them and are reported again.",
  "note": "single thread only (the 'concurrent use' half of the statement is outside); sizes enumerated (<=6 infos, <=2 growths), choices symbolic; memset modelled by a byte loop; "
-         "constructor callback is a harness stub; known-finding classes assumed away until /repo is repaired (fix patches in harness/C41).",
+         "constructor callback is a harness stub.",
  "technique": "CBMC bounded symbolic execution of the real C unit + SAT (cadical), native ASan replay of counterexamples",
 }
